@@ -113,6 +113,8 @@ type EnvOpts struct {
 	Origin    common.Address
 	GasPrice  *big.Int
 	NoHost    bool // do not put a Host into the context
+	// CustomTracer, when set, is installed as the debug tracer instead of the recorder
+	CustomTracer vm.EVMLogger
 	// WrapState, when set, wraps the StateDB handed to the EVM (observation of state reads/writes)
 	WrapState func(vm.StateDB) vm.StateDB
 }
@@ -169,6 +171,9 @@ func NewEnv(o EnvOpts) *Env {
 	if o.Tracer {
 		cfg.Tracer = e.Rec
 	}
+	if o.CustomTracer != nil {
+		cfg.Tracer = o.CustomTracer
+	}
 	var sdb vm.StateDB = e.State
 	if o.WrapState != nil {
 		sdb = o.WrapState(sdb)
@@ -179,6 +184,12 @@ func NewEnv(o EnvOpts) *Env {
 		e.Ctx = WithHost(e.Ctx, e.Host)
 	}
 	return e
+}
+
+// NewEnvWithTracer is NewEnv with the given debug tracer installed.
+func NewEnvWithTracer(o EnvOpts, t vm.EVMLogger) *Env {
+	o.CustomTracer = t
+	return NewEnv(o)
 }
 
 func (e *Env) Rules() params.Rules {
